@@ -172,7 +172,7 @@ def run_query(q, shape, scratch_root, tier):
         a_gb = os.path.join(sdir, 'a.gb')
         b_gb = os.path.join(sdir, 'b.gb')
         cc = ['goto-cc', '-DKV_CBMC', '-DKALIGN_VERIF', '-D__NO_CTYPE'] + VERSION_DEFS + q.get('defs', []) + shape_defs(shape) + include_flags(tree) + \
-             ['--function', entry, harness, '-o', a_gb]
+             ['--function', entry, harness] + [os.path.join(tree, x) for x in q.get('srcs', [])] + ['-o', a_gb]
         r.cmds.append(' '.join(cc))
         rc, out, err, _ = sh(cc, timeout=300)
         if rc != 0:
@@ -202,7 +202,9 @@ def run_query(q, shape, scratch_root, tier):
         flags = list(q.get('cbmc_flags', []))
         if 'unwind' in q:
             flags += ['--unwind', str(q['unwind'])]
-        for k, v in q.get('unwindset', {}).items():
+        uws = dict(q.get('unwindset', {}))
+        uws.setdefault('kv_mk_msa_raw.0', 130)   # harness helper: zeroing the 128-entry histogram
+        for k, v in uws.items():
             flags += ['--unwindset', '%s:%d' % (k, v)]
         if shape and 'unwind' in shape:
             flags += ['--unwind', str(shape['unwind'])]
